@@ -13,7 +13,8 @@ class Property(Base):
         "translator T2 (translators/gen_codes.py): WriteResult numbering regenerated from core/src/write.rs",
         "translator T8 (translators/rs2v, syn-based Rust-subset -> Gallina): provider/src/write/state.rs is REGENERATED into Gen/StateGen.v on every run; theorems C03_code_* prove the state-machine functions of Write/Writer.v equal to it for all inputs (trusted: the translation scheme of rs2v and Base/RsPrelude.v: usize arithmetic wraps or panics, Vec = list in push order)",
         "translator T8 also regenerates every method of `impl Context` in provider/src/write.rs (Gen/WriteCtxGen.v: which transition each call makes, which bytes it appends, the destination pointer of a string write, the provider's own copy of an interned string); theorems C03_code_ctx_* prove Writer.step equal to it on related contexts",
-        "hand-written: the exported wrappers of provider/src/write.rs (`bool != 0`, packing of status and pointer, finalize), the glue's copy into the returned destination (apply_copy), (coq/theories/Write/Writer.v) and of the rmp 0.8.15 encoders (coq/theories/Msgpack/Rmp.v), tied to the code by the correspondence after EVERY call (status + current output bytes through hook verif_output_bytes)",
+        "also regenerated and proved equal (C03_code_abi_*): the exported functions shopify_function_output_* of provider/src/write.rs (`bool != 0`, packing of status and pointer into the double-width word) and the native finalize",
+        "hand-written: the glue's copy into the returned destination (apply_copy = vec_write at the pointer handed back), the api-side Context::write_* methods and map_result, (coq/theories/Write/Writer.v) and of the rmp 0.8.15 encoders (coq/theories/Msgpack/Rmp.v), tied to the code by the correspondence after EVERY call (status + current output bytes through hook verif_output_bytes)",
         "abstract document builder coq/theories/Write/WSpec.v and token grammar Write/Grammar.v are the specification",
     ]
     assumptions = [
